@@ -422,10 +422,11 @@ class AutoSerialize:
         elif isinstance(value, set):
             # Convert set to list for serialization, store type info
             subgroup = group.require_group(name)
-            subgroup.attrs["_container_type"] = "set"
             # Convert set items to list and serialize
             list_value = list(value)
             self._serialize_container(list_value, subgroup, skip_names, skip_types, compressors)
+            # _serialize_container records "list"; restore the real container type
+            subgroup.attrs["_container_type"] = "set"
 
         elif hasattr(value, "bit_generator"):
             # NumPy random generator - save state through bit_generator
@@ -969,6 +970,11 @@ class AutoSerialize:
 
         elif ctype == "set":
             # Convert back from list to set
+            if (
+                group.attrs.get("_sequence_encoding") == "ndarray"
+                and "values" in group.array_keys()
+            ):
+                return set(AutoSerialize._read_array_np(group, "values").tolist())
             items = []
             for i in range(
                 max(
